@@ -92,11 +92,30 @@ def _setup(scratch):
             raise exc.BertE_Exception('generic')
         raise HarnessError('unknown outcome ' + o)
 
-    for cls in (PullRequestJob, CommitJob, APIJob):
+    from bert_e.jobs.eval_pull_request import EvalPullRequestJob
+    for cls in (PullRequestJob, CommitJob, APIJob, EvalPullRequestJob):
         HarnessBertE.set_callback(cls, stub)
     b = HarnessBertE(settings)
     b.git_repo = SimpleNamespace(reset=lambda: None, tmp_directory=None)
     _Env.berte = b
+    # the real Flask front door on the same instance (used by a fraction of
+    # the runs: requests then enter through the webhook / API views)
+    os.environ['WEBHOOK_LOGIN'] = 'hook'
+    os.environ['WEBHOOK_PWD'] = 'hookpw'
+    os.environ['BERT_E_CLIENT_ID'] = 'cid'
+    os.environ['BERT_E_CLIENT_SECRET'] = 'cs'
+    from bert_e import server
+
+    def configure_sessions(app):
+        from flask_session import Session
+        app.config['SESSION_TYPE'] = 'filesystem'
+        app.config['SESSION_FILE_DIR'] = os.path.join(scratch, 'sessions')
+        Session(app)
+    server.configure_sessions = configure_sessions
+    b.project_repo = SimpleNamespace(owner='o', slug='s',
+                                     full_name='o/s')
+    _Env.app = server.setup_server(b)
+    _Env.app.config['PROPAGATE_EXCEPTIONS'] = False
     _Env.classes = (PullRequestJob, CommitJob, APIJob)
     _Env.expected_status = {
         'return': '', 'silent': 'NothingToDo', 'template': 'BuildFailed',
@@ -122,7 +141,8 @@ def gen_config(rng, outcomes):
         threads.append(evs)
     prios = list(range(nthreads + 1))
     rng.shuffle(prios)
-    return {'threads': threads, 'prios': prios}
+    return {'threads': threads, 'prios': prios,
+            'via': 'http' if rng.random() < 0.12 else 'direct'}
 
 
 def gen_plan(rng, est_steps=140):
@@ -173,10 +193,74 @@ def run_schedule(cfg, plan):
 
     requests = []
 
+    via_http = cfg.get('via') == 'http'
+    outcome_of = {}
+
+    def http_request(ev, req):
+        """The request enters through the real Flask views."""
+        import base64
+        import copy
+        import json as _json
+        from bert_e.tests import test_server_data as tsd
+        auth = 'Basic ' + base64.b64encode(b'hook:hookpw').decode()
+        c = _Env.app.test_client()
+        if ev['kind'] == 'api':
+            with c.session_transaction() as sess:
+                sess['user'] = 'root'
+                sess['admin'] = True
+            r = c.post('/api/pull-requests/%d' % (900 + ev['key']), json={})
+            return r.status_code
+        if ev['kind'] == 'pr':
+            data = copy.deepcopy(tsd.COMMENT_CREATED)
+            data['pullrequest']['id'] = ev['key'] + 1
+            key = 'pullrequest:comment_created'
+        else:
+            data = copy.deepcopy(tsd.COMMIT_STATUS_CREATED)
+            sha = '%040x' % (ev['key'] + 1)
+            data['commit_status']['state'] = 'SUCCESSFUL'
+            data['commit_status']['links']['commit']['href'] = \
+                'https://h/commit/' + sha
+            key = 'repo:commit_status_updated'
+        data['repository']['owner'] = {'username': 'o'}
+        data['repository']['name'] = 's'
+        r = c.post('/bitbucket', data=_json.dumps(data),
+                   headers={'X-Event-Key': key, 'Authorization': auth})
+        return r.status_code
+
+    def key_of_job(job):
+        if isinstance(job, PullRequestJob):
+            return ('pr', job.pull_request.id - 1)
+        if isinstance(job, CommitJob):
+            return ('commit', int(job.commit, 16) - 1)
+        return ('api', id(job))
+
+    if via_http:
+        # jobs are built by the views: outcomes are attached by key
+        def on_start_http(job):
+            k = key_of_job(job)
+            job.sim_key = k if k[0] != 'api' else ('api', getattr(
+                job.settings, 'pr_id', 0) - 900)
+            job.sim_outcome = outcome_of.get(
+                (job.sim_key[0], job.sim_key[1]), 'silent')
+            started.append((tick(), job.sim_key, job))
+        _Env.on_start = on_start_http
+
     def http_thread(evs, tname):
         def body():
             for i, ev in enumerate(evs):
                 rid = '%s.%d' % (tname, i)
+                if via_http:
+                    k = (ev['kind'], ev['key'])
+                    outcome_of[k] = ev['outcome']
+                    req = {'rid': rid, 'key': k, 'job': None,
+                           'arrived': tick(), 'accepted': None}
+                    requests.append(req)
+                    code = http_request(ev, req)
+                    if code >= 400:
+                        refused.append((rid, 'http %d' % code))
+                        continue
+                    req['accepted'] = tick()
+                    continue
                 job = make_job(ev)
                 jobs.append(job)
                 req = {'rid': rid, 'key': job.sim_key, 'job': job,
@@ -201,6 +285,7 @@ def run_schedule(cfg, plan):
     wt = sched.add('worker', cfg['prios'][-1], worker)
     sched.run()
     info = {'steps': sched.step, 'fired': len(sched.fired),
+            'via_http': via_http,
             'schedule': digest(sched.log), 'refused': len(refused),
             'njobs': len(started),
             'dstate': digest([(m[0], m[1]) for m in sched.log[-1:]])}
@@ -346,6 +431,9 @@ class C13:
                                         0) + info['refused']
             if info['fired'] or len(cfg['threads']) > 1:
                 nontrivial.add(info['schedule'])
+            if info['via_http']:
+                stats['probes']['entered-through-flask-views'] = \
+                    stats['probes'].get('entered-through-flask-views', 0) + 1
             if len(samples) < 2:
                 samples.append({'seed': seed, 'config': cfg, 'plan': plan,
                                 'steps': info['steps']})
